@@ -1515,7 +1515,10 @@ impl Date {
             -1 => self.yesterday(),
             1 => self.tomorrow(),
             days => {
-                let days = UnixEpochDay::try_new("days", days).with_context(
+                // N.B. This is a number of days to add, and not a number of
+                // days since the Unix epoch. So its range is that of a span
+                // of days (which is wider than `UnixEpochDay`).
+                let days = t::SpanDays::try_new("days", days).with_context(
                     || {
                         err!(
                             "{days} computed from duration {duration:?} \
@@ -1523,8 +1526,9 @@ impl Date {
                         )
                     },
                 )?;
-                let days =
-                    self.to_unix_epoch_day().try_checked_add("days", days)?;
+                let days = self
+                    .to_unix_epoch_day()
+                    .try_checked_add("days", UnixEpochDay::rfrom(days))?;
                 Ok(Date::from_unix_epoch_day(days))
             }
         }
